@@ -674,7 +674,9 @@ Lemma dropped_refutes :
   differs (points_without 12) fam_sgpr [OPredict 3] 0 = true /\
   differs (points_without 12) (fam_var true) [OPredict 0] 3 = true /\
   differs (points_without 12) (fam_var false) [OPredict 3; OPrior] 1 = true /\
-  differs (points_without 13) fam_kiss [OBackward; OFantasy] 0 = true /\
+  differs (points_without 13) fam_kiss_cached_copy [OBackward; OFantasy] 0 = true /\
+  differs all_on fam_kiss_cached_copy [OBackward; OFantasy] 0 = false /\
+  fst (snd (step all_on fam_kiss (run all_on fam_kiss init [OBackward]) OFantasy)) = ST_OK /\
   (bwd_status all_on fam_exact [OPredict 2; OBackward] = ST_OK /\
    bwd_status (points_without 5) fam_exact [OPredict 2; OBackward] = ST_ERR).
 Proof. vm_compute. repeat split. Qed.
